@@ -351,13 +351,20 @@ static std::vector<uint32_t> small_digest(NifFile& nif) {
 	}
 	return d;
 }
-extern "C" void h_c11(int ver, int feat, int edit, int order) {
+// srcKind: 0 = the source is a loaded model (caches linked by Load), 1 = the source is the model as built through the API
+extern "C" void h_c11(int ver, int feat, int edit, int order, int srcKind) {
 	NifFile* a = new NifFile();
 	fm_build(*a, ver, feat);
 	FmRange s0 = fm_save(*a, true);
-	// work on a loaded model (caches linked by Load) as well as on the built one
 	NifFile* src = new NifFile();
-	int rc = fm_load(*src, s0);
+	int rc = 0;
+	if (srcKind == 0)
+		rc = fm_load(*src, s0);
+	else {
+		delete src;
+		src = new NifFile();
+		fm_build(*src, ver, feat);
+	}
 	sym_assert(rc == 0, "C11-setup: model does not load");
 	sym_reach("loaded");
 	NifFile* b = new NifFile(*src);
@@ -376,7 +383,9 @@ extern "C" void h_c11(int ver, int feat, int edit, int order) {
 	// edit the copy
 	auto shapes = b->GetShapes();
 	if (!shapes.empty()) {
-		NiShape* sh = shapes[0];
+		NiShape* sh = b->FindBlockByName<NiShape>("Shape");
+		if (!sh)
+			sh = shapes[0];
 		if (edit == 0) {
 			std::vector<uint16_t> del = {0};
 			b->DeleteVertsForShape(sh, del);
@@ -563,8 +572,27 @@ extern "C" void h_c14(int ver, int feat, int dest, int twice) {
 	src.GetShapeBoneList(sshape, b1);
 	dst.GetShapeBoneList(clone, b2);
 	sym_assert(b1 == b2, "C14-bones: clone's bone list names differ from the source's");
-	for (auto& bn : b2)
-		sym_assert(dst.FindBlockByName<NiNode>(bn) != nullptr, "C14-bone-missing: a bone of the clone does not exist in the destination");
+	for (auto& bn : b2) {
+		NiNode* db = dst.FindBlockByName<NiNode>(bn);
+		NiNode* sb = src.FindBlockByName<NiNode>(bn);
+		sym_assert(db != nullptr, "C14-bone-missing: a bone of the clone does not exist in the destination");
+		if (db && sb && dest == 1) {
+			// the bone had to be created in the (empty) destination: same block type and type-specific fields
+			sym_assert(std::string(db->GetBlockName()) == sb->GetBlockName(), "C14-bone-type: a bone created in the destination has another block type than in the source");
+			auto dv = dynamic_cast<BSValueNode*>(db);
+			auto sv = dynamic_cast<BSValueNode*>(sb);
+			if (sv)
+				sym_assert(dv && dv->value == sv->value, "C14-bone-fields: a bone created in the destination lost its type-specific fields");
+			sym_assert(db->GetTransformToParent().translation == sb->GetTransformToParent().translation, "C14-bone-transform: a bone created in the destination has another transform");
+		}
+	}
+	// the clone's cached geometry-data pointer designates the destination's own data block
+	if (clone->HasType<NiTriBasedGeom>()) {
+		auto dd = dst.GetHeader().GetBlock<NiGeometryData>(clone->DataRef());
+		sym_assert(dd != nullptr && clone->GetGeomData() == dd, "C14-geomdata-link: the clone's geometry-data pointer does not designate the destination's copy of the data block");
+		auto sd = src.GetHeader().GetBlock<NiGeometryData>(sshape->DataRef());
+		sym_assert(sd != nullptr && sshape->GetGeomData() == sd && sd != dd, "C14-geomdata-source: the source shape's geometry-data pointer changed or is shared with the clone");
+	}
 	compare_rec(src, sshape, dst, clone, 0, true);
 	// destination saves and reloads with the clone intact
 	FmRange fd = fm_save(dst, true);
